@@ -46,7 +46,8 @@ def main(ck, pid, cfg, tier, seed, replay):
                 lines = []
                 for l in open(os.path.join(NG_DIR, 'cases.txt')):
                     l = l.rstrip('\n')
-                    k = 'c' + l.split(' ')[1]
+                    k = l.split(' ')[1]
+                    k = k if k.startswith('x') else 'c' + k
                     if k in errs:
                         lines.append(f'{l} err {errs[k]}')
                     elif k in finished:
